@@ -44,6 +44,7 @@ fn main() {
         "scan" => race::run_scan(&opts),
         "sweep" => race::run_sweep(&opts),
         "lagfullchild" => crash::lagfull(&opts),
+        "lagburstchild" => crash::lagburst(&opts),
         "sweepsched" => sweepsched::run(&opts),
         "abuf" => abuf::run(&opts),
         "abufallocchild" => abuf::allocchild(&opts),
